@@ -170,9 +170,12 @@ Proof.
   rewrite sum_pim by (now rewrite !map_length).
   unfold nrows. rewrite (pis_prodv (fun A x => mg A x r * mg A x s) (fun A => length A)).
   unfold kgram_M. fold rest. rewrite fold_left_mul.
-  assert (Hcg : map (col_gram v0 vadd vmul ^~ r s) rest = map (fun A => SN (length A) (fun x => mg A x r * mg A x s)) rest).
+  assert (Hcg : map (fun A => col_gram v0 vadd vmul A r s) rest = map (fun A => SN (length A) (fun x => mg A x r * mg A x s)) rest).
   { apply map_ext. intros A. unfold col_gram. now rewrite (sum_over_nth []). }
-  rewrite Hcg. unfold mget, w. fold An. ring.
+  rewrite Hcg. unfold mget, w. fold An.
+  match goal with |- context [prodv v1 vmul ?l] => set (P := prodv v1 vmul l) end.
+  match goal with |- _ = _ * prodv v1 vmul ?l => change (prodv v1 vmul l) with P end.
+  ring.
 Qed.
 
 (* ---- C14: dense Gram matrix  Xn Xn^T *)
